@@ -35,7 +35,7 @@ CFG = {
                   "the offset on and clamps the offset after every scroll history - proved for all texts/widths/offsets. "
                   "widgets/scrollbar: bar inside the track for all valid positions; for ALL inputs only window rows are touched "
                   "and nothing is drawn when the content fits or a size is zero. vxfw/list Dynamic (after the repairs F119, "
-                  "F119b, F119c, F119d, F119f, F119g in /repo): layout (order, contiguity with the gap, heights, no overlap) proved for "
+                  "F119b, F119c, F119d, F119f, F119g, F119h in /repo): layout (order, contiguity with the gap, heights, no overlap) proved for "
                   "one Draw from ANY state and ANY gap; no panic, 'selected item visible after SetCursor/NextItem/PrevItem + "
                   "Draw', and 'top/offset anchored on the child covering row 0' proved for ALL gaps >= 0 and ALL histories "
                   "including replacement of the Builder's items (visibility even from any state, with any scroll pending); the surface returned has "
@@ -54,9 +54,9 @@ CFG = {
                   "into syntax (no digest), fully_recognised, skeleton_* (statement structure), facts_* (every arithmetic/"
                   "boolean expression evaluated = the model's expression, for all values), interp_* (ensureScroll, SetCursor, "
                   "SetPendingScroll, NextItem, PrevItem: the regenerated syntax run through an interpreter IS the model function, "
-                  "for all states and builders), the five repair facts read off the skeleton in Lean; and by the public-API correspondence (0 mismatches allowed).",
+                  "for all states and builders), the six repair facts read off the skeleton in Lean; and by the public-API correspondence (0 mismatches allowed).",
     "assumptions": [
-        "Dynamic list: cursors passed to SetCursor are below 2^63; the Builder has fewer than 2^63 items and is prefix-closed (nil from the first missing index on)",
+        "Dynamic list: the Builder has fewer than 2^63 items and is prefix-closed (nil from the first missing index on)",
         "Draw contexts are bounded (Max.Width, Max.Height != 65535), as Dynamic.Draw itself requires",
     ],
     "technique": "Lean 4 proof over an executable model; extractor + differential correspondence harness",
